@@ -136,3 +136,62 @@ fn sha512_trace_len112() { sha512_case::<112>(111) }
 #[kani::stub(impl512::digest_block, rec512)]
 #[kani::unwind(300)]
 fn sha512_trace_len128() { sha512_case::<128>(127) }
+
+// ---- initial hash values (FIPS 180-4 5.3.2-5.3.6) and output serialisation / truncation (6.2.2-6.7): with the block function
+// replaced by the recorder (state untouched), the digest of any message is the big-endian serialisation of H(0) cut to the
+// digest length.  No inputs: a complete check of the six IV tables and of output_{224,256,384,512}bits_at.
+fn be_words_64(h: &[u64; 8], out: &mut [u8; 64]) {
+    let mut i = 0;
+    while i < 8 {
+        let mut j = 0;
+        while j < 8 {
+            out[8 * i + j] = (h[i] >> (56 - 8 * j)) as u8;
+            j += 1;
+        }
+        i += 1;
+    }
+}
+fn be_words_32(h: &[u32; 8], out: &mut [u8; 64]) {
+    let mut i = 0;
+    while i < 8 {
+        let mut j = 0;
+        while j < 4 {
+            out[4 * i + j] = (h[i] >> (24 - 8 * j)) as u8;
+            j += 1;
+        }
+        i += 1;
+    }
+}
+fn prefix_eq(d: &[u8], want: &[u8; 64]) {
+    let _ = take();
+    let mut i = 0;
+    while i < d.len() {
+        assert!(d[i] == want[i], "digest byte == serialised H(0) byte");
+        i += 1;
+    }
+}
+// @harness props=C01 kind=full tier=quick timeout=600
+#[kani::proof]
+#[kani::stub(impl512::digest_block, rec512)]
+#[kani::stub(impl256::digest_block, rec256)]
+#[kani::unwind(130)]
+fn sha2_initial_values_and_truncation() {
+    let mut w = [0u8; 64];
+    be_words_64(&[0x6a09e667f3bcc908, 0xbb67ae8584caa73b, 0x3c6ef372fe94f82b, 0xa54ff53a5f1d36f1, 0x510e527fade682d1, 0x9b05688c2b3e6c1f,
+                  0x1f83d9abfb41bd6b, 0x5be0cd19137e2179], &mut w);
+    prefix_eq(&Context512::new().finalize(), &w);
+    be_words_64(&[0xcbbb9d5dc1059ed8, 0x629a292a367cd507, 0x9159015a3070dd17, 0x152fecd8f70e5939, 0x67332667ffc00b31, 0x8eb44a8768581511,
+                  0xdb0c2e0d64f98fa7, 0x47b5481dbefa4fa4], &mut w);
+    prefix_eq(&Context384::new().finalize(), &w);
+    be_words_64(&[0x22312194fc2bf72c, 0x9f555fa3c84c64c2, 0x2393b86b6f53b151, 0x963877195940eabd, 0x96283ee2a88effe3, 0xbe5e1e2553863992,
+                  0x2b0199fc2c85b8aa, 0x0eb72ddc81c52ca2], &mut w);
+    prefix_eq(&Context512_256::new().finalize(), &w);
+    be_words_64(&[0x8c3d37c819544da2, 0x73e1996689dcd4d6, 0x1dfab7ae32ff9c82, 0x679dd514582f9fcf, 0x0f6d2b697bd44da8, 0x77e36f7304c48942,
+                  0x3f9d85a86a1d36c8, 0x1112e6ad91d692a1], &mut w);
+    prefix_eq(&Context512_224::new().finalize(), &w);
+    be_words_32(&[0x6a09e667, 0xbb67ae85, 0x3c6ef372, 0xa54ff53a, 0x510e527f, 0x9b05688c, 0x1f83d9ab, 0x5be0cd19], &mut w);
+    prefix_eq(&Context256::new().finalize(), &w);
+    be_words_32(&[0xc1059ed8, 0x367cd507, 0x3070dd17, 0xf70e5939, 0xffc00b31, 0x68581511, 0x64f98fa7, 0xbefa4fa4], &mut w);
+    prefix_eq(&Context224::new().finalize(), &w);
+    kani::cover!(true);
+}
